@@ -286,6 +286,7 @@ type message struct {
 	errAt                              int
 	zr                                 map[int]bool
 	stop, more                         int
+	br                                 string // representation of the body: "" scripted, nil nobody bytes strings nop newreq readreq
 	hold                               int    // pause after this many reads until the second phase
 	park                               func() // set by runMS
 }
@@ -294,6 +295,7 @@ type caseSpec struct {
 	via       string
 	thr       int
 	fast, lag int // V=h: websocket subscribers
+	ns        int // NS=n: the same messages are logged to n independent streams (or Modifiers)
 	phase     int // PH=k: messages k.. are logged in a second phase, after lagging subscribers were released
 	join      int // J=n: subscribers joining between the phases
 	msgs      []*message
@@ -305,7 +307,7 @@ func unhexS(v string) (string, bool) {
 }
 
 func parseMS(in []string) (*caseSpec, bool) {
-	cs := &caseSpec{via: "s", thr: 1, fast: 1, lag: 1}
+	cs := &caseSpec{via: "s", thr: 1, fast: 1, lag: 1, ns: 1}
 	var m *message
 	for _, t := range in {
 		if t == "M" {
@@ -335,12 +337,17 @@ func parseMS(in []string) (*caseSpec, bool) {
 					return nil, false
 				}
 				cs.thr = n
-			case "PH", "J", "CAP":
+			case "PH", "J", "CAP", "NS":
 				n, err := strconv.Atoi(v)
 				if err != nil || n < 0 || n > 1<<20 {
 					return nil, false
 				}
-				if k == "PH" {
+				if k == "NS" {
+					if n < 1 || n > 4 {
+						return nil, false
+					}
+					cs.ns = n
+				} else if k == "PH" {
 					cs.phase = n
 				} else if k == "J" {
 					cs.join = n
@@ -450,6 +457,9 @@ func parseMS(in []string) (*caseSpec, bool) {
 			m.stop, ok = num()
 		case "hold":
 			m.hold, ok = num()
+		case "br":
+			m.br = v
+			ok = strings.Contains(" nil nobody bytes strings nop newreq readreq ", " "+v+" ")
 		case "more":
 			m.more, ok = num()
 			ok = ok && m.more <= 64
@@ -510,14 +520,53 @@ func fmtReads(rs []readRes) string {
 
 func nowMs() int64 { return time.Now().UnixNano() / 1000 / 1000 }
 
-func runMessage(m *message, s *marbl.Stream, mod *marbl.Modifier) (out []string) {
+// stdBody builds a body that is NOT the harness's scripted body: the
+// representations net/http itself produces or that callers commonly pass.
+func stdBody(kind string, data []byte) io.ReadCloser {
+	switch kind {
+	case "nil":
+		return nil
+	case "nobody":
+		return http.NoBody
+	case "bytes":
+		return io.NopCloser(bytes.NewReader(data))
+	case "strings":
+		return io.NopCloser(strings.NewReader(string(data)))
+	case "nop":
+		return io.NopCloser(bytes.NewBuffer(append([]byte(nil), data...)))
+	case "newreq": // http.NewRequest: http.NoBody for an empty reader, a NopCloser otherwise
+		r, err := http.NewRequest("POST", "http://example.com/", bytes.NewReader(data))
+		if err != nil {
+			return nil
+		}
+		return r.Body
+	case "readreq": // http.ReadRequest of a bodiless request: http.NoBody
+		r, err := http.ReadRequest(bufio.NewReader(strings.NewReader("GET / HTTP/1.1\r\nHost: example.com\r\n\r\n")))
+		if err != nil {
+			return nil
+		}
+		return r.Body
+	}
+	return nil
+}
+
+// runMessage logs one message to every stream (or through every Modifier), in
+// order, then reads the body through the outermost wrapper.
+func runMessage(m *message, ss []*marbl.Stream, mods []*marbl.Modifier) (out []string) {
 	end := len(m.body)
 	var termErr error = io.EOF
 	if m.errAt >= 0 && m.errAt <= len(m.body) {
 		end = m.errAt
 		termErr = errInjected
 	}
-	sb := &scriptBody{data: m.body, end: end, termErr: termErr, chunks: m.ck, withEnd: m.eofData, zero: m.zr}
+	var sb *scriptBody
+	var body io.ReadCloser
+	if m.br == "" {
+		sb = &scriptBody{data: m.body, end: end, termErr: termErr, chunks: m.ck, withEnd: m.eofData, zero: m.zr}
+		body = sb
+	} else if b := stdBody(m.br, m.body); b != nil {
+		body = b // (a nil *interface value* must stay nil)
+	}
 
 	hdr := http.Header{}
 	for _, h := range m.hdr {
@@ -530,10 +579,10 @@ func runMessage(m *message, s *marbl.Stream, mod *marbl.Modifier) (out []string)
 		req.Header = hdr
 		req.ContentLength = m.cl
 		req.TransferEncoding = m.te
-		req.Body = sb
+		req.Body = body
 	} else {
 		res = &http.Response{Proto: m.pr, StatusCode: m.st, Status: m.re, Header: hdr, ContentLength: m.cl,
-			TransferEncoding: m.te, Body: sb, Request: req}
+			TransferEncoding: m.te, Body: body, Request: req}
 	}
 	ctx, remove, err := martian.TestContext(req, nil, nil)
 	if err != nil {
@@ -544,7 +593,7 @@ func runMessage(m *message, s *marbl.Stream, mod *marbl.Modifier) (out []string)
 		ctx.APIRequest()
 	}
 	id := m.id
-	if mod != nil {
+	if len(mods) > 0 {
 		id = ctx.ID()
 	}
 	out = append(out, "cid="+hx.HexS(id), "ep="+hx.HexS(req.URL.EscapedPath()))
@@ -558,15 +607,19 @@ func runMessage(m *message, s *marbl.Stream, mod *marbl.Modifier) (out []string)
 				panicked = true
 			}
 		}()
-		switch {
-		case m.kind == "Q" && mod != nil:
-			mod.ModifyRequest(req)
-		case m.kind == "Q":
-			s.LogRequest(id, req)
-		case mod != nil:
-			mod.ModifyResponse(res)
-		default:
-			s.LogResponse(id, res)
+		for _, mod := range mods {
+			if m.kind == "Q" {
+				mod.ModifyRequest(req)
+			} else {
+				mod.ModifyResponse(res)
+			}
+		}
+		for _, s := range ss {
+			if m.kind == "Q" {
+				s.LogRequest(id, req)
+			} else {
+				s.LogResponse(id, res)
+			}
 		}
 	}()
 	t1 := nowMs()
@@ -579,10 +632,15 @@ func runMessage(m *message, s *marbl.Stream, mod *marbl.Modifier) (out []string)
 	} else {
 		wrapped = res.Body
 	}
+	if wrapped == nil {
+		// the body was nil and logging left it nil: nothing to read
+		return append(out, "U=-", "W=-", "WB=x", "BODY=nil")
+	}
 
 	// the consumer
 	var got bytes.Buffer
 	var w []readRes
+	var sizes []int
 	rb := m.rb
 	if len(rb) == 0 {
 		rb = []int{4096}
@@ -605,6 +663,7 @@ func runMessage(m *message, s *marbl.Stream, mod *marbl.Modifier) (out []string)
 			}
 			buf := make([]byte, rb[k%len(rb)])
 			n, err := wrapped.Read(buf)
+			sizes = append(sizes, len(buf))
 			if n < 0 || n > len(buf) {
 				w = append(w, readRes{n, '!'})
 				break
@@ -621,9 +680,20 @@ func runMessage(m *message, s *marbl.Stream, mod *marbl.Modifier) (out []string)
 		}
 		wrapped.Close()
 	}()
-	out = append(out, "U="+fmtReads(sb.log), "W="+fmtReads(w), "WB="+hx.Hex(got.Bytes()), fmt.Sprintf("CL=%d", sb.closed))
+	var u []readRes
+	if sb != nil {
+		u = sb.log
+		out = append(out, fmt.Sprintf("CL=%d", sb.closed))
+	} else if twin := stdBody(m.br, m.body); twin != nil && !panicked {
+		// what the underlying body returns: the same Read calls on a twin
+		for _, sz := range sizes {
+			n, err := twin.Read(make([]byte, sz))
+			u = append(u, readRes{n, kindOf(err)})
+		}
+	}
+	out = append(out, "U="+fmtReads(u), "W="+fmtReads(w), "WB="+hx.Hex(got.Bytes()))
 	if panicked {
-		out = append(out, "P=PANIC")
+		out = append(out, "RP=PANIC")
 	}
 	return out
 }
@@ -633,20 +703,31 @@ func runMS(in []string) []string {
 	if !ok {
 		return []string{"badcase"}
 	}
+	// sinks[k] receives stream k; stream 0 uses the sink chosen by V=, further
+	// streams (NS=n) write into plain buffers
 	lb := &lockedBuf{}
-	var sk sink = lb
+	sinks := []sink{lb}
 	switch cs.via {
 	case "r":
-		sk = &retainSink{}
+		sinks[0] = &retainSink{}
 	case "h":
-		sk = newHandlerSink(cs.fast, cs.lag)
+		sinks[0] = newHandlerSink(cs.fast, cs.lag)
 	}
-	var s *marbl.Stream
-	var mod *marbl.Modifier
-	if cs.via == "m" {
-		mod = marbl.NewModifier(lb)
-	} else {
-		s = marbl.NewStream(sk)
+	sk := sinks[0]
+	lbs := []*lockedBuf{lb}
+	for k := 1; k < cs.ns; k++ {
+		b := &lockedBuf{}
+		sinks = append(sinks, b)
+		lbs = append(lbs, b)
+	}
+	var ss []*marbl.Stream
+	var mods []*marbl.Modifier
+	for k := 0; k < cs.ns; k++ {
+		if cs.via == "m" {
+			mods = append(mods, marbl.NewModifier(sinks[k]))
+		} else {
+			ss = append(ss, marbl.NewStream(sinks[k]))
+		}
 	}
 	outs := make([][]string, len(cs.msgs))
 	done := make(chan struct{})
@@ -669,14 +750,14 @@ func runMS(in []string) []string {
 					m.park = func() { once.Do(p1.Done); <-gate }
 					go func() {
 						defer wg.Done()
-						outs[j] = runMessage(m, s, mod)
+						outs[j] = runMessage(m, ss, mods)
 						once.Do(p1.Done)
 					}()
 				} else {
 					go func() {
 						defer wg.Done()
 						<-gate
-						outs[j] = runMessage(m, s, mod)
+						outs[j] = runMessage(m, ss, mods)
 					}()
 				}
 			}
@@ -695,16 +776,17 @@ func runMS(in []string) []string {
 					defer wg.Done()
 					<-start
 					for j := g; j < len(cs.msgs); j += cs.thr {
-						outs[j] = runMessage(cs.msgs[j], s, mod)
+						outs[j] = runMessage(cs.msgs[j], ss, mods)
 					}
 				}(g)
 			}
 			close(start)
 			wg.Wait()
 		}
-		if s != nil {
-			s.Close()
-		} else {
+		for _, st := range ss {
+			st.Close()
+		}
+		for k, mod := range mods {
 			// The Modifier's stream cannot be closed or flushed from outside.
 			// Its writer goroutine handles frames strictly in order, so once a
 			// later frame has been accepted every earlier one has been
@@ -713,9 +795,9 @@ func runMS(in []string) []string {
 			sreq, _ := http.NewRequest("GET", "http://sentinel.invalid/", nil)
 			sctx, remove, err := martian.TestContext(sreq, nil, nil)
 			if err == nil {
-				lb.mu.Lock()
-				lb.cutID = sctx.ID()[:8]
-				lb.mu.Unlock()
+				lbs[k].mu.Lock()
+				lbs[k].cutID = sctx.ID()[:8]
+				lbs[k].mu.Unlock()
 				mod.ModifyRequest(sreq)
 				remove()
 			}
@@ -732,7 +814,17 @@ func runMS(in []string) []string {
 		out = append(out, fmt.Sprintf("m%d", j))
 		out = append(out, o...)
 	}
-	return append(out, sectionTokens(sk.finish())...)
+	for k, sn := range sinks {
+		secs := sn.finish()
+		if k > 0 {
+			// an independent stream: its own group of sections ("s<k>:")
+			for i := range secs {
+				secs[i].name = fmt.Sprintf("s%d:%s", k, secs[i].name)
+			}
+		}
+		out = append(out, sectionTokens(secs)...)
+	}
+	return out
 }
 
 // ---------------------------------------------------------------- cases
@@ -1159,6 +1251,50 @@ func main() {
 			}
 		}
 		emit("smallframes", in)
+	}
+
+	// ---- 5f. the REPRESENTATION of the body as a dimension: nil, the
+	// http.NoBody sentinel (what http.ReadRequest / http.NewRequest produce for
+	// a bodiless message), empty and non-empty stdlib readers, scripted bodies
+	// that end at once or after a (0,nil) read — requests and responses, read to
+	// EOF (and once more).  Exhaustive over the small table.
+	for _, br := range []string{"nil", "nobody", "bytes", "strings", "nop", "newreq", "readreq", "script", "script0"} {
+		for _, kind := range []string{"Q", "S"} {
+			for _, extra := range [][]string{{}, {"more=1"}, {"rb=1"}} {
+				in := []string{"MS", "M", "k=" + kind, "id=" + hexTok(randID(rng)), "h=" + hexTok("A") + ":" + hexTok("1")}
+				switch br {
+				case "script":
+					in = append(in, "bd=0:1")
+				case "script0":
+					in = append(in, "bd=0:1", "zr=0")
+				default:
+					in = append(in, "br="+br, "bd=0:1")
+				}
+				emit("bodyrep", append(in, extra...))
+			}
+		}
+	}
+	for k := 0; k < 6*scale; k++ { // the same representations with content
+		r := rng.Fork()
+		br := []string{"bytes", "strings", "nop", "newreq"}[r.Intn(4)]
+		in := []string{"MS", "M", "k=" + []string{"Q", "S"}[r.Intn(2)], "id=" + hexTok(randID(r)), "br=" + br,
+			fmt.Sprintf("bd=%d:%d", r.Range(1, 9000), r.Intn(1<<30)), fmt.Sprintf("rb=%d", r.Range(1, 5000))}
+		emit("bodyrep", in)
+	}
+
+	// ---- 5g. several independent streams attached to the same messages
+	// (two Modifiers in one group, or LogRequest/LogResponse called for a file
+	// stream and a websocket stream): every stream must decode to the whole
+	// message
+	for k := 0; k < 10*scale; k++ {
+		r := rng.Fork()
+		via := []string{"s", "s", "m", "h", "r"}[r.Intn(5)]
+		in := []string{"MS", "V=" + via, fmt.Sprintf("NS=%d", r.Range(2, 3)), fmt.Sprintf("T=%d", r.Range(1, 4))}
+		for j, nm := 0, r.Range(1, 4); j < nm; j++ {
+			in = append(in, "M")
+			in = append(in, randMessage(r, randID(r), 2000, 900)...)
+		}
+		emit("multi", in)
 	}
 
 	// ---- 5e. delivery to subscribers of different speeds: a subscriber that
